@@ -8,6 +8,7 @@ from ..flow import guards_at, flatten_guards
 from ..constfold import try_fold
 from ..tables import tables_of
 from ..mutate import Mutant, in_func
+from .. import guardspec
 from . import c01, c18
 from ..report import Result
 
@@ -736,6 +737,57 @@ def rule_r13(prog, res):
     res.floor('R13', 'complex member reads', k, 1)
 
 
+# ------------------------------------------------------------------ R14
+def rule_r14(prog, res):
+    res.rule('R14', 'the writer removes one level of array wrapping per level '
+             'of list nesting (arrays of arrays keep their shape)')
+    h = prog.cls('spyne.protocol.dictdoc.hier:HierDictDocument')
+    f = h.methods.get('_object_to_doc')
+    if f is None:
+        raise AnalysisError('HierDictDocument._object_to_doc', 'not found')
+    loops = [w for w in walk_no_defs(f.node) if isinstance(w, ast.While) and
+             '_wrapper' in unparse(w.test)]
+    res.floor('R14', 'wrapper-skipping loops in _object_to_doc', len(loops), 1)
+    for w in loops:
+        rebinds = [a for st in w.body for a in ast.walk(st)
+                   if isinstance(a, ast.Assign) and any(
+                       'cls' in [y.id for y in ast.walk(t)
+                                 if isinstance(y, ast.Name)]
+                       for t in a.targets)]
+        breaks = [b for st in w.body for b in ast.walk(st)
+                  if isinstance(b, ast.Break)]
+        stops = False
+        for b in breaks:
+            atoms = guardspec.atoms_at(b, w)
+            names = set()
+            for t, pol in atoms:
+                if pol:
+                    names |= {y.id for y in ast.walk(ast.parse(t, mode='eval'))
+                              if isinstance(y, ast.Name)}
+            arrayish = any('Array' in t and pol for t, pol in atoms)
+            for a in walk_no_defs(f.node):
+                if isinstance(a, ast.Assign) and any(
+                        isinstance(t, ast.Name) and t.id in names
+                        for t in a.targets) and 'Array' in unparse(a.value):
+                    arrayish = True
+            if arrayish:
+                stops = True
+        array_in_test = 'Array' in unparse(w.test)
+        ok = stops or array_in_test
+        where = '%s:%d' % (f.module.relpath, w.lineno)
+        res.ob('R14', where, '_object_to_doc: the wrapper-skipping loop %s '
+               'after an Array' % ('stops' if ok else 'does not stop'),
+               'ok' if ok else 'VIOLATED')
+        if not ok:
+            res.finding('R14', 'HierDictDocument._object_to_doc|nested-'
+                        'arrays-flattened', where, 'the loop that skips '
+                        'single-member wrappers runs through every nested '
+                        'Array in one go: for Array(Array(P)) the outer list '
+                        'is iterated with P as item type, so [[P(x=1)], '
+                        '[P(x=2)]] is answered with a Server fault or '
+                        'mangled into [{"x": [1]}, ...]')
+
+
 def run(prog, res, tier):
     res.run_rule(rule_r1, prog, res)
     res.run_rule(rule_r2, prog, res)
@@ -750,6 +802,7 @@ def run(prog, res, tier):
     res.run_rule(rule_r11, prog, res)
     res.run_rule(rule_r12, prog, res)
     res.run_rule(rule_r13, prog, res)
+    res.run_rule(rule_r14, prog, res)
 
 
 _H = 'spyne/protocol/dictdoc/hier.py'
@@ -758,6 +811,10 @@ _J = 'spyne/protocol/json.py'
 _Y = 'spyne/protocol/yaml.py'
 
 MUTANTS = [
+    Mutant('nested-arrays-unwrapped-in-one-go', 'R14', 'fire', _H,
+           in_func('HierDictDocument._object_to_doc',
+                   "                if is_array:\n", "                if False:"
+                   "\n"), 'nested-arrays-flattened'),
     Mutant('json-kind-check-rejects-null', 'R13', 'fire', _J,
            in_func('JsonDocument.validate',
                    "        if val is None and self.get_cls_attrs(cls)."
